@@ -133,7 +133,7 @@ namespace Clipper2Lib {
     JoinType jt, EndType et, double miter_limit = 2.0,
     double arc_tolerance = 0.0)
   {
-    if (!delta) return paths;
+    if (!delta) return (et == EndType::Polygon) ? paths : Paths64();
     ClipperOffset clip_offset(miter_limit, arc_tolerance);
     clip_offset.AddPaths(paths, jt, et);
     Paths64 solution;
@@ -148,7 +148,7 @@ namespace Clipper2Lib {
     int error_code = 0;
     CheckPrecisionRange(precision, error_code);
     if (error_code) return PathsD();
-    if (!delta) return paths;
+    if (!delta) return (et == EndType::Polygon) ? paths : PathsD();
     const double scale = std::pow(10, precision);
     ClipperOffset clip_offset(miter_limit, arc_tolerance * scale);
     clip_offset.AddPaths(ScalePaths<int64_t,double>(paths, scale, error_code), jt, et);
